@@ -400,7 +400,7 @@ func (p *Parser) ShortExp(t *token.Token) (ast.ExpNode, *token.Token) {
 	case token.STRING:
 		s, err := ast.NewString(t)
 		if err != nil {
-			panic(err)
+			stringError(t, err)
 		}
 		exp, t = s, p.Scan()
 	case token.LONGSTRING:
@@ -570,7 +570,7 @@ func (p *Parser) Args(t *token.Token) ([]ast.ExpNode, *token.Token) {
 	case token.STRING:
 		arg, err := ast.NewString(t)
 		if err != nil {
-			panic(err)
+			stringError(t, err)
 		}
 		return []ast.ExpNode{arg}, p.Scan()
 	case token.LONGSTRING:
@@ -671,6 +671,14 @@ func expectType(t *token.Token, tp token.Type, expected string) {
 	if t.Type != tp {
 		panic(Error{Got: t, Expected: expected})
 	}
+}
+
+// stringError reports an invalid escape sequence in the string token t as a
+// syntax error located at that token.
+func stringError(t *token.Token, err error) {
+	tok := *t
+	tok.Type = token.INVALID
+	panic(Error{Got: &tok, Expected: err.Error()})
 }
 
 func tokenError(t *token.Token, expected string) {
